@@ -50,10 +50,10 @@ PROPS = {
                        Z("C13", "tsan", w=2, scen="pool"), Z("C10", "tsan", w=2, scen="sig"), Z("C11", "tsan", w=3, scen="wait")],
                 quick=9000, thorough=400000, quick_s=80, nontrivial=[],
                 nontrivial_any=["post_cross", "sim_libthreads", "sim_sigdel", "sim_reaps"], level="exploration"),
-    "C15": dict(parts=[Z("C15", mode="enum", w=4), Z("C17", scen="pump", mode="enum", w=1), Z("C09", mode="enum", w=1)], quick=260, thorough=12000, nontrivial=["block"], level="fault_enumeration"),
+    "C15": dict(parts=[Z("C15", mode="enum", w=4), Z("C17", scen="pump", mode="enum", w=1), Z("C09", mode="enum", w=2)], quick=300, thorough=12000, nontrivial=["block"], level="fault_enumeration"),
     "C17": dict(parts=[Z("C17", scen="pump")], quick=6000, thorough=300000, nontrivial=["pump_bytes"], level="exploration"),
-    "C18": dict(parts=[Z("C18", w=4), Z("C13", scen="pool"), Z("C10", scen="sig"), Z("C11", scen="wait"), Z("C19", scen="popen"),
-                       Z("C17", scen="pump"), Z("C20", scen="inot"), Z("C05", scen="timers")], quick=24000, thorough=1200000, nontrivial=["cycles"], level="exploration"),
+    "C18": dict(parts=[Z("C18", w=4), Z("C13", scen="pool", w=3), Z("C10", scen="sig"), Z("C11", scen="wait"), Z("C19", scen="popen"),
+                       Z("C17", scen="pump"), Z("C20", scen="inot"), Z("C05", scen="timers")], quick=30000, thorough=1200000, quick_s=75, nontrivial=["cycles"], level="exploration"),
     "C20": dict(parts=[Z("C20", scen="inot")], quick=16000, thorough=800000, nontrivial=["inot_cb"], level="exploration"),
 }
 
@@ -114,9 +114,10 @@ def parse_run_line(line):
     return r
 
 
-def relevant(prop, vid, variant=""):
-    if prop == "C15" and variant and variant != "base":
-        # every guarantee of the other properties must survive every enumerated fault variant
+def relevant(prop, vid, variant="", faults=None):
+    if prop == "C15" and ((variant and variant != "base") or faults):
+        # every guarantee of the other properties must survive every enumerated fault variant, and
+        # every base plan in which a fault of the plan itself (absent facility, EINTR) fired
         return True
     return vid.startswith(prop + ".") or vid.startswith("ANY.") or vid.startswith("SIM.")
 
@@ -166,7 +167,7 @@ class Agg:
         self.switches += int(R.get("switches", 0))
         self.secs += r["secs"]
         if r["viol"]:
-            rel = [v for v in r["viol"] if relevant(self.prop, v[0], r["variant"])]
+            rel = [v for v in r["viol"] if relevant(self.prop, v[0], r["variant"], r["faults"])]
             if rel:
                 self.viol.append((flavour, r))
             else:
@@ -300,7 +301,7 @@ def handle_violations(agg, exes, outdir, prop, tier):
     kf = known_findings()
     os.makedirs(os.path.join(VERIF, "replays"), exist_ok=True)
     for flavour, r in agg.viol:
-        rel = [v for v in r["viol"] if relevant(prop, v[0], r["variant"])]
+        rel = [v for v in r["viol"] if relevant(prop, v[0], r["variant"], r["faults"])]
         vid, desc = rel[0]
         # one report per (id, stable description)
         sig = vid + "|" + re.sub(r"\d+", "N", desc)[:80]
